@@ -397,7 +397,8 @@ class C01(Check):
             return {"outcome": "meta-skipped-timeout", "nontrivial": False}
         viol = []
         ok0 = r0.exit == 0
-        same = (paths.canon_stdout(r0.out) == paths.canon_stdout(r1.out) and r1.exit == 0) if ok0 else r1.exit != 0
+        loose = paths.iterates_a_map(cwd0)
+        same = (paths.canon_stdout(r0.out, loose) == paths.canon_stdout(r1.out, loose) and r1.exit == 0) if ok0 else r1.exit != 0
         if not same:
             viol.append({"sig": {"kind": "lexical-transformation", "how": how, "generator": "example:" + rel},
                          "what": f"{rel} after `{how}`: exit {r0.exit} -> {r1.exit}; output {r0.out[-120:]!r} -> {(r1.out + r1.err)[-200:]!r}",
@@ -406,7 +407,7 @@ class C01(Check):
 
     def run_meta(self, case):
         """differential: the program of another generator before and after a transformation that only touches line ends, comments and blanks"""
-        from ..lang import gencorpus
+        from ..lang import gencorpus, paths
         _, nm, how = case
         files = gencorpus.get(nm)
         if not all(_no_multiline_strings(t) for t in files.values()):
@@ -420,7 +421,8 @@ class C01(Check):
         driver.write_files(d1, files2)
         r1 = driver.run(["run", entry, "-q"], d1, timeout=20)
         viol = []
-        same = r0.exit == r1.exit and r0.out == r1.out if r0.exit == 0 else (r1.exit != 0 and r0.lines()[:3] == r1.lines()[:3] or
+        loose = paths.mentions_map_iteration(files.values())
+        same = r0.exit == r1.exit and paths.canon_stdout(r0.out, loose) == paths.canon_stdout(r1.out, loose) if r0.exit == 0 else (r1.exit != 0 and r0.lines()[:3] == r1.lines()[:3] or
                                                                             (driver.compile_rejected(r0)) == (driver.compile_rejected(r1)) and r1.exit != 0)
         if not same:
             viol.append({"sig": {"kind": "lexical-transformation", "how": how, "generator": nm.split(":")[0]},
